@@ -421,17 +421,17 @@ func checkLarfb(c larfbCase) *vk.Failure {
 }
 
 func TestLarf(t *testing.T) {
-	vk.Run(t, "larfg", vk.Opts{Quick: 300, Thorough: 20000, NoCrumb: true}, func(t *rapid.T) larfgCase {
+	vk.Run(t, "larfg", vk.Opts{Quick: 300, Thorough: 12000, NoCrumb: true}, func(t *rapid.T) larfgCase {
 		return larfgCase{N: rapid.IntRange(0, 40).Draw(t, "n"), Inc: rapid.IntRange(1, 4).Draw(t, "inc"),
 			Kind: rapid.IntRange(0, 4).Draw(t, "kind"), Seed: vk.SeedGen(t, "seed")}
 	}, finish(checkLarfg))
-	vk.Run(t, "larf", vk.Opts{Quick: 400, Thorough: 20000, NoCrumb: true}, func(t *rapid.T) larfCase {
+	vk.Run(t, "larf", vk.Opts{Quick: 400, Thorough: 12000, NoCrumb: true}, func(t *rapid.T) larfCase {
 		return larfCase{M: rapid.IntRange(0, 24).Draw(t, "m"), N: rapid.IntRange(0, 24).Draw(t, "n"),
 			Right: rapid.Bool().Draw(t, "right"), Inc: rapid.SampledFrom([]int{1, 1, 2, 3, -1, -2}).Draw(t, "inc"),
 			PadC: vk.Pad(t, "padC"), Tau0: vk.NewSplitMix(rapid.Uint64().Draw(t, "tau0")).Intn(8) == 0,
 			ZeroTail: rapid.SampledFrom([]int{0, 0, 1, 3, 30}).Draw(t, "zerotail"), Seed: vk.SeedGen(t, "seed")}
 	}, finish(checkLarf))
-	vk.Run(t, "larfb", vk.Opts{Quick: 500, Thorough: 25000}, func(t *rapid.T) larfbCase {
+	vk.Run(t, "larfb", vk.Opts{Quick: 500, Thorough: 15000}, func(t *rapid.T) larfbCase {
 		return larfbCase{M: rapid.IntRange(0, 40).Draw(t, "m"), N: rapid.IntRange(0, 40).Draw(t, "n"), K: rapid.IntRange(1, 12).Draw(t, "k"),
 			Right: rapid.Bool().Draw(t, "right"), Trans: rapid.Bool().Draw(t, "trans"),
 			Backward: rapid.Bool().Draw(t, "backward"), RowWise: rapid.Bool().Draw(t, "rowwise"),
